@@ -15,8 +15,11 @@ package shrex
 //@   effect $Validated := err == nil
 //@ extern (github.com/celestiaorg/celestia-node/store.AccessorGetter).GetByHeight
 //@   effect $AccOpen := $AccOpen || err == nil
+// (io.Closer.Close is both the accessor's and the stream's Close: one extern, two flags - conflated, see
+// the note on abstraction in DESIGN)
 //@ extern (io.Closer).Close
 //@   effect $AccOpen := false
+//@   effect $StreamEnded := true
 //@ extern (github.com/libp2p/go-libp2p/core/network.ResourceScope).ReserveMemory
 //@   effect $MemHeld := $MemHeld || err == nil
 //@ extern (github.com/libp2p/go-libp2p/core/network.ResourceScope).ReleaseMemory
@@ -38,9 +41,23 @@ package shrex
 //@   requires status == shrexpb.Status_INTERNAL || status == shrexpb.Status_NOT_FOUND || status == shrexpb.Status_OK
 //@   ensures result0 == statusSendStatusErr || (status == shrexpb.Status_INTERNAL && result0 == statusInternalErr) || (status == shrexpb.Status_NOT_FOUND && result0 == statusNotFound) || (status == shrexpb.Status_OK && result0 == statusSuccess)
 
+//   $StreamEnded - the stream was closed or reset
+//@ extern (github.com/libp2p/go-libp2p/core/network.MuxedStream).Reset
+//@   effect $StreamEnded := true
+//@ extern (github.com/libp2p/go-libp2p/core/network.MuxedStream).Close
+//@   effect $StreamEnded := true
+//@ extern (github.com/libp2p/go-libp2p/core/network.Stream).Reset
+//@   effect $StreamEnded := true
+//@ extern (github.com/libp2p/go-libp2p/core/network.Stream).ResetWithError
+//@   effect $StreamEnded := true
+//@ extern (github.com/libp2p/go-libp2p/core/network.Stream).Close
+//@   effect $StreamEnded := true
+
 //@ func (*Server).handleDataRequest
 //@   property C09
 //@   noframe
+//@   havoc $StreamEnded $AccOpen $MemHeld $Validated $StatusSent $ReaderOK $RespRead
+//@   ensures result0 == statusResourceExhausted ==> $StreamEnded
 //@   requires !$AccOpen && !$MemHeld && !$Validated && !$StatusSent && !$ReaderOK
 //@   callpre AccessorGetter).GetByHeight: $Validated
 //@   callpre respondStatus: $arg1 == shrexpb.Status_OK ==> $ReaderOK
@@ -79,4 +96,26 @@ package shrex
 //@   havoc $RespRead
 //@   callpre Client).doRequest: $arg3 == req && $arg4 == resp && $arg5 == peer
 //@   ensures err == nil ==> $RespRead
+
+
+// ---------------------------------------------------------------------------------------------
+// C09: "never wedge the server": whatever happens to a request - refused by the resource manager, rate
+// limited, malformed, failed half-way or served - the handler ends the stream on every path (reset
+// when nothing will be sent back or after a resource refusal, close otherwise), and the request it
+// handles is handed to the request handler together with this very stream. Every protocol's handler is
+// installed behind the recovery middleware, which turns a panic into a reset of that stream.
+//@ func (*Server).streamHandler$1
+//@   property C09
+//@   noframe
+//@   requires !$StreamEnded && !$AccOpen && !$MemHeld && !$Validated && !$StatusSent && !$ReaderOK
+//@   havoc $StreamEnded $AccOpen $MemHeld $Validated $StatusSent $ReaderOK $RespRead
+//@   callpre Server).handleDataRequest: $arg2 == requestID && $arg3 == s
+//@   ensures $StreamEnded
+
+//@ func (*Server).Start
+//@   property C09
+//@   noframe
+//@   callpre Server).streamHandler: $arg2 == reqID
+//@   callpre shrex.RecoveryMiddleware: $arg0 == handler
+//@   callpre Server).SetHandler: $arg2 == withRecovery
 
